@@ -50,6 +50,10 @@ LEAVES = {
     'polyline_closed': ('polyline', {'points': '1,1 4,2 3,5 1,1'}),
     'polygon_open': ('polygon', {'points': '1,1 5,1.5 4,5'}),
     'polygon_closed': ('polygon', {'points': '1,1 5,1.5 4,5 1,1'}),
+    # legal spellings of the same kind of list (SVG 1.1 9.7.1): no integer part, trailing dot, exponents,
+    # signs, a minus sign as the only separator, commas between pairs, line breaks and tabs
+    'polyline_lexical': ('polyline', {'points': '.5,.25 4.,2. 3e0,5E-1 +7,+6 8-1 -2-3'}),
+    'polygon_lexical': ('polygon', {'points': ' 1,1,5,1.5,4,5\n-.75 1.5e1\t2.5E+0,-.5e-1 '}),
     'rect_plain': ('rect', {'x': '1', 'y': '2', 'width': '6', 'height': '4'}),
     'rect_rx': ('rect', {'x': '1', 'y': '2', 'width': '6', 'height': '4', 'rx': '1.5'}),
     'rect_ry': ('rect', {'x': '1', 'y': '2', 'width': '6', 'height': '4', 'ry': '1'}),
